@@ -5,7 +5,7 @@ import json
 import math
 import sys
 from collections.abc import Mapping
-from datetime import UTC, datetime
+from datetime import UTC, datetime, timedelta
 from email.utils import parsedate_to_datetime
 
 sys.path.insert(0, __file__.rsplit("/", 1)[0])
@@ -159,7 +159,16 @@ def run(c):
         except ValueError:
             return ["int", None]
     if k == "parse":
-        return ["parse", enc_float(H._parse_retry_after(c["s"])), date_oracle(c["s"])]
+        global NOW
+        r1, d1 = enc_float(H._parse_retry_after(c["s"])), date_oracle(c["s"])
+        # the same text parsed again 100 s later: a date is a distance from *now* (nothing about an earlier parse may be kept)
+        t0 = NOW
+        try:
+            NOW = t0 + timedelta(seconds=100)
+            r2, d2 = enc_float(H._parse_retry_after(c["s"])), date_oracle(c["s"])
+        finally:
+            NOW = t0
+        return ["parse", r1, d1, r2, d2]
     if k == "coerce":
         e = HttpError("rate limited")
         e.status = c.get("status", 429)
